@@ -157,6 +157,18 @@ def fn_spec(name, f, cuts=(), calls=True, scalar=True, rename=None):
     return Spec(name, [(n, tuple(s)) for n, s in ins], build, cuts=cuts, calls=calls, scalar=scalar)
 
 
+def lazy_fn_spec(name, thunk, cuts=(), calls=True, scalar=True):
+    """like fn_spec, but the casadi.Function is (re)built by `thunk` INSIDE the extraction, so that the
+    SERIES calls it makes stay calls (patched tables are active while `build` runs)"""
+    f0 = thunk()
+    ins = [(f0.name_in(i), tuple(f0.size_in(i))) for i in range(f0.n_in())]
+    outs = [f0.name_out(i) for i in range(f0.n_out())]
+    def build(*args):
+        f = thunk()
+        return list(zip(outs, f.call(list(args))))
+    return Spec(name, ins, build, cuts=cuts, calls=calls, scalar=scalar)
+
+
 def rdd2_alloc_specs():
     import cyecca.models.rdd2 as m
     f = m.derive_control_allocation()["f_alloc"]
@@ -193,6 +205,12 @@ def quad_specs():
             fn_spec("quadrotor.g_gyro", m["g_gyro"])]
 
 
+def ins_specs():
+    import cyecca.models.rdd2 as m
+    return [lazy_fn_spec("rdd2.strapdown_ins_propagate",
+                         lambda: m.derive_strapdown_ins_propagation()["strapdown_ins_propagate"])]
+
+
 MODULES = {
     "Series": (series_specs, ()),
     "SO2": (so2_specs, ("Series",)),
@@ -205,4 +223,5 @@ MODULES = {
     "Alloc": (rdd2_alloc_specs, ("Series",)),
     "Bezier": (bezier_specs, ("Series",)),
     "Quad": (quad_specs, ("Series",)),
+    "Ins": (ins_specs, ("Series",)),
 }
